@@ -16,7 +16,7 @@ from vlib.core import Stage, fail
 ID = "C16"
 MANIFEST = {
     "category": "fault_enumeration",
-    "text": "Generated fault injection with a differential oracle: deep AHBs x content evaluation results x a drawn non-empty set of nodes (groups, segments, free-text elements, entries of value pools) each receiving a structurally invalid expression (neutral-vs-requirement O/X mix or bare hint/format-constraint pair at any depth; under any indicator; alone, as a later modal-mark part, or hidden in a package; also every entry of one value pool at once). validate_deep_anwendungshandbuch of the faulted AHB must not raise InvalidExpressionError; compared with the run on the AHB where each injected expression is replaced by 'Kann': NotImplementedError in one iff in the other, same discriminators in the same order, every non-faulted node's result equal (value pools with a faulted entry included: the entry counts as selectable), every faulted group/segment/free-text node reported optional with the reason as hint - the message of the InvalidExpressionError that evaluating the injected expression on its own raises under the same content. A third of the cases validate the same faulted AHB a second time, in the same process, under a different content evaluation result. A fifth of the injected faults are invalid because of the evaluator's answer: a requirement constraint answered NEUTRAL next to a boolean operand in O / X.",
+    "text": "Generated fault injection with a differential oracle: deep AHBs x content evaluation results x a drawn non-empty set of nodes (groups, segments, free-text elements, entries of value pools) each receiving a structurally invalid expression (neutral-vs-requirement O/X mix or bare hint/format-constraint pair at any depth; under any indicator; alone, as a later modal-mark part, hidden in a package, or with up to four of its parts - at any depth - written as packages of their own; also every entry of one value pool at once). validate_deep_anwendungshandbuch of the faulted AHB must not raise InvalidExpressionError; compared with the run on the AHB where each injected expression is replaced by 'Kann': NotImplementedError in one iff in the other, same discriminators in the same order, every non-faulted node's result equal (value pools with a faulted entry included: the entry counts as selectable), every faulted group/segment/free-text node reported optional with the reason as hint - the message of the InvalidExpressionError that evaluating the injected expression, with every package body written out in its place, raises on its own under the same content. A third of the cases validate the same faulted AHB a second time, in the same process, under a different content evaluation result. A fifth of the injected faults are invalid because of the evaluator's answer: a requirement constraint answered NEUTRAL next to a boolean operand in O / X.",
     "note": "Trusted: gen.g_dom_invalid / ref.validity (the injected expressions are invalid by the structural criterion of C06), attrs equality of results. Faults are sampled, not enumerated exhaustively: subsets of up to 5 nodes per tree. Process configuration by shard (vlib/sut.py; recorded in replay files): plain / parse caches preheated beyond their size / warnings attributed to ahbicht raised as errors / logging fully enabled with every record rendered; one event loop per process or a new one per call; five process time zones; the hash seed is the shard number; namesakes of ahbicht's marshmallow schema classes are registered.",
     "technique": "property-based fault injection with a differential oracle (faulted AHB vs the same AHB with 'Kann' at the faulted nodes)",
 }
@@ -109,7 +109,7 @@ def check_once(case, cer):
     for kind, node, expr, index in vtree.expressions(tree):
         if expr.get("fault") and index is None:
             fault_nodes[node["d"]] = kind
-            fault_exprs[node["d"]] = expr["s"]
+            fault_exprs[node["d"]] = expr
     subtree_sizes = _subtree_sizes(tree)
     for mine, theirs in zip(got, want):
         d = mine.discriminator
@@ -124,10 +124,11 @@ def check_once(case, cer):
             hint = mine.validation_result.hints
             if not (isinstance(hint, str) and hint.strip()):
                 fail("no-reason", f"faulted node {d} carries no reason as hint: {hint!r}")
-            expected_reason = _reason(fault_exprs[d], tree, cer)
+            # the reason is that of the expression with every package body written in its place
+            expected_reason = _reason(fault_exprs[d].get("plain", fault_exprs[d]["s"]), tree, cer)
             if hint != expected_reason:
-                fail("wrong-reason", f"faulted node {d} ({fault_exprs[d]!r}) under rc={cer['rc']}: the hint is {hint!r} but the "
-                     f"reason why the expression is invalid under this content is {expected_reason!r}")  # fmt: skip
+                fail("wrong-reason", f"faulted node {d} ({fault_exprs[d]['s']!r}, packages {tree['table']}) under rc={cer['rc']}: the "
+                     f"hint is {hint!r} but the reason why the expression is invalid under this content is {expected_reason!r}")  # fmt: skip
         elif mine != theirs:
             fail("other-node-changed", f"node {d} is not faulted but its result differs: {mine.validation_result} vs with 'Kann': {theirs.validation_result}")
     pools = [node for kind, node, _ in vtree.nodes(tree) if kind == "vp" and any(e["expr"].get("fault") for e in node["pool"])]
@@ -168,6 +169,8 @@ def classify(case, info):
         labels.append("fault-above-big-subtree")
     if case.get("hidden_in_package"):
         labels.append("hidden-in-package")
+    if case.get("several_packages"):
+        labels.append("several-packages-in-one-invalid-expression")
     if case.get("later_part"):
         labels.append("fault-in-later-part")
     if info.get("second_validation"):
@@ -194,12 +197,13 @@ def strategy(tier):
         if pools and draw(st.sampled_from(range(3))) == 0:
             victim = draw(st.sampled_from(pools))
             chosen = sorted(set(chosen) | {i for i, slot in enumerate(slots) if slot[1] is victim})
-        hidden = later = False
+        hidden = later = several = False
         for position in chosen:
             kind, node, expr, index = slots[position]
             invalid = draw(gen.g_dom_invalid(max_atoms=4, pools=vtree.POOLS))
             text = gen.render(draw, invalid, redundant=False, top=False)
-            style = draw(st.sampled_from(["plain", "plain", "later-part", "package", "neutral-answer"]))
+            style = draw(st.sampled_from(["plain", "plain", "later-part", "package", "neutral-answer", "packaged-parts"]))
+            plain = None
             if style == "neutral-answer":
                 # invalid because of what the evaluator answers: NEUTRAL is a documented outcome of a requirement constraint
                 # evaluator, and a neutral operand next to a boolean one in O / X "has no useful result" (key 17 is
@@ -213,8 +217,27 @@ def strategy(tier):
             elif style == "package":
                 key = f"{90 + len(tree['table'])}P"
                 tree["table"][key] = text
-                written = f"{draw(gen.indicator_text(gen.MODAL_WORDS + gen.PREFIX_WORDS))} [{key}] "
+                indicator = draw(gen.indicator_text(gen.MODAL_WORDS + gen.PREFIX_WORDS))
+                written, plain = f"{indicator} [{key}] ", f"{indicator} ({text}) "
                 hidden = True
+            elif style == "packaged-parts":
+                # several parts of the invalid expression (at any depth, next to each other or not) are written as
+                # packages; the expression that is evaluated is the one with the bodies in their places (C10)
+                paths = [path for path, node in ref.sites(invalid)
+                         if not (path and ref.node_at(invalid, path[:-1])[0] == "then" and node[0] == "fc")]
+                picked = []
+                for path in draw(st.lists(st.sampled_from(paths), min_size=1, max_size=4, unique=True)):
+                    if not any(path[: len(other)] == other or other[: len(path)] == path for other in picked):
+                        picked.append(path)
+                packaged = invalid
+                for path in picked:
+                    key = f"{90 + len(tree['table'])}P"
+                    tree["table"][key] = ref.canonical(ref.node_at(invalid, path))
+                    packaged = ref.replace_at(packaged, path, lambda _, key=key: ["pkg", key, None])
+                indicator = draw(gen.indicator_text(gen.MODAL_WORDS + gen.PREFIX_WORDS))
+                written = f"{indicator} {gen.render(draw, packaged, redundant=False, top=False)} "
+                plain = f"{indicator} {ref.canonical(invalid)} "
+                hidden = several = len(picked) >= 2 or several
             elif style == "later-part":
                 valid = gen.render(draw, draw(gen.g_dom(max_atoms=3, mode="valid", pools=vtree.POOLS)), redundant=False, top=False)
                 written = (f"{draw(gen.indicator_text(gen.MODAL_WORDS))} {valid} "
@@ -222,7 +245,7 @@ def strategy(tier):
                 later = True
             else:
                 written = f"{draw(gen.indicator_text(gen.MODAL_WORDS + gen.PREFIX_WORDS))}{draw(gen.ws())}{text} "
-            new = {"s": written, "parts": [], "fault": True}
+            new = {"s": written, "parts": [], "fault": True, "plain": plain or written}
             if index is None:
                 node["expr"] = new
             else:
@@ -231,7 +254,8 @@ def strategy(tier):
         for data in (cer, cer2):
             if data is not None:
                 data["rc"]["17"] = "N"
-        return {"tree": tree, "cer": cer, "soll": draw(st.booleans()), "hidden_in_package": hidden, "later_part": later, "cer2": cer2}
+        return {"tree": tree, "cer": cer, "soll": draw(st.booleans()), "hidden_in_package": hidden, "later_part": later, "cer2": cer2,
+                "several_packages": several}
 
     return build()
 
@@ -245,6 +269,6 @@ STAGES = [
     Stage(name="faults", kind="hyp", check=check, classify=classify, strategy=strategy,
           budget={"quick": 100, "thorough": 800},
           floors={"fault-at-group": 0.2, "fault-at-seg": 0.1, "fault-at-ft": 0.05, "fault-at-vp-entry": 0.03,
-                  "hidden-in-package": 0.1, "fault-in-later-part": 0.1, "all-entries-of-a-pool-faulted": 0.03},
+                  "hidden-in-package": 0.1, "fault-in-later-part": 0.1, "several-packages-in-one-invalid-expression": 0.05, "all-entries-of-a-pool-faulted": 0.03},
           sample=sample),
 ]  # fmt: skip
